@@ -32,6 +32,7 @@ type raceShared struct {
 	policy biscuit.Policy
 	rule   biscuit.Rule
 	p      parser.Parser
+	setFact biscuit.Fact
 }
 
 func raceOp(sh *raceShared, op string, k int) (res string) {
@@ -53,6 +54,7 @@ func raceOp(sh *raceShared, op string, k int) (res string) {
 		}
 		az.AddFact(biscuit.Fact{Predicate: biscuit.Predicate{Name: "resource", IDs: []biscuit.Term{biscuit.String(fmt.Sprintf("file%d", k%3))}}})
 		az.AddCheck(sh.check)
+		az.AddFact(sh.setFact) // a shared parsed value with a set written out of order
 		// a regular expression evaluated by every goroutine, some patterns shared and some
 		// seen for the first time under concurrency
 		if rc, err := sh.p.Check(fmt.Sprintf(`check if resource($r), $r.matches("^fil[a-z]%d?[0-9]+(x%d)?$")`, k%4, raceEpoch), nil); err == nil {
@@ -167,7 +169,11 @@ func raceShare(r *Rng) (*raceShared, error) {
 	if err != nil {
 		return nil, err
 	}
-	return &raceShared{tok: tok, check: ck, policy: pol, rule: rl, p: p}, nil
+	sf, err := p.Fact(`allowed(["k", "j", "c", "h", "g", "f", "e", "d", "i", "b", "a"])`, nil)
+	if err != nil {
+		return nil, err
+	}
+	return &raceShared{tok: tok, check: ck, policy: pol, rule: rl, p: p, setFact: sf}, nil
 }
 
 var raceEpoch int // mix number: patterns differ from mix to mix, so each mix meets some for the first time
